@@ -41,7 +41,13 @@ def run(an: Analysis, rep):
                         nontrivial=False)
                 continue
             if arm.kind == "replace":
-                if f.name not in arm.kws:
+                if f.name in arm.cond and f.name not in arm.kws:
+                    g, v = arm.cond[f.name]
+                    ok = is_recursion_on(fn, p, v, f.name) or is_same_field(p, v, f.name)
+                    rep.add("R05.1", key, ok, loc(fn.module, v),
+                            f"{f.name}={norm_src(v)} when {norm_src(g)}: same field, normalized recursively" if ok
+                            else f"public field {f.name} is overwritten with {norm_src(v)} when `{norm_src(g)}`: normalization changes the meaning of the code")
+                elif f.name not in arm.kws:
                     rep.add("R05.1", key, True, loc(fn.module, arm.ret), "not mentioned in replace(): kept", nontrivial=False)
                 else:
                     v = arm.kws[f.name]
@@ -83,6 +89,10 @@ def run(an: Analysis, rep):
     from . import c02, c10
     rep.run(c10.format_rules, an, SharedRules(rep, "R05.L", "line-table format constants (shared with C10's R10.*): 'the same line for every instruction' after re-encoding"))
     rep.run(c02.jump_rules, an, SharedRules(rep, "R05.J", "jump / closure operand arithmetic of the encoder (shared with C02's R02.3/R02.4): the re-encoded instructions resolve to the same operands"))
+    from . import c01, c11
+    shf = SharedRules(rep, "R05.F", "every flag the decoder took into the data is added back by the encoder exactly when its datum is set (shared with C11's R11.3): 'flags differing at most in CO_NESTED'")
+    for V in VERSIONS:
+        rep.run(c11.r113, an, shf, V, c01._dispositions(an, V)[0])
     rep.run(c03.r035, an, SharedRules(rep, "R05.W", "operand width thresholds and unit emission (shared with C03's R03.5): normalize strips the recorded widths, so every operand is re-emitted at the width this function gives"))
     rep.run(c03.r038, an, SharedRules(rep, "R05.K", "lines keyed at the first code unit of an instruction (shared with C03's R03.8): 'the same line for every instruction' and the same traced line events"))
     rep.run(c03.r037, an, SharedRules(rep, "R05.R", "re-layout after normalization (shared with C03's R03.7): with the width overrides stripped, jumps still land on their targets"))
